@@ -58,6 +58,15 @@ void *realloc(void *ptr, size_t len)
     if (len % __WORDSIZE != 0)
         len += (__WORDSIZE - (len % __WORDSIZE));
 
+    /*
+     * Same minimum chunk size as in malloc(): the chunk must be able
+     * to hold a freelist entry once it is freed.  Without it
+     * realloc(ptr, 0) shrinks the chunk to size 0 and the header of
+     * the split-off free chunk lands in the caller's block.
+     */
+    if (len < sizeof(struct __freelist) - sizeof(size_t))
+        len = sizeof(struct __freelist) - sizeof(size_t);
+
     struct __freelist *fp1, *fp2, *fp3, *ofp3;
     char *cp, *cp1;
     void *memp;
